@@ -296,6 +296,49 @@ def source_state_scan():
                     hits.append("%s:%d: %s" % (os.path.relpath(p, REPO), ln, line.strip()[:100]))
     return hits
 
+# ------------------------------------------------------------------------------------------ in-Coq re-evaluation
+def coq_bytes(b): return "[" + ";".join(str(x) for x in b) + "]%N"
+def coq_zl(l): return "[" + ";".join("(%d)" % x for x in l) + "]%Z"
+def coq_nl(l): return "[" + ";".join("%d" % x for x in l) + "]%N"
+
+def coq_eval(pid, terms, timeout=600):
+    """Evaluate Gallina terms with vm_compute INSIDE Coq (no extraction involved) and return the printed values, whitespace
+    removed.  Guards the extraction mapping (ExtrOcamlZBigInt, the bitwise Extract Constants) and the OCaml driver: the same
+    cases must give the same answers as the extracted model."""
+    os.makedirs(WORK, exist_ok=True)
+    f = os.path.join(WORK, "cases_%s_%d.v" % (pid, os.getpid()))
+    with open(f, "w") as fh:
+        fh.write("From ZK Require Import RealEnv Consts ClOps ClConsts.\nFrom Coq Require Import ZArith List.\nImport ListNotations.\n")
+        fh.write("Definition dummy_env (kind : N) (s : suite) : env := real_env (fun a b => a) (fun a => a) (fun a b => a) (fun _ => false) "
+                 "(fun a b => a) (fun a => a) (fun a b => a) (fun _ => false) (fun a => a) (fun _ => None) (fun _ _ _ _ => false) kind s.\n")
+        for k, t in enumerate(terms):
+            fh.write("Definition case_%d := %s.\nEval vm_compute in (%d%%nat, case_%d).\n" % (k, t, k, k))
+    qs = []
+    for d in ("Base", "Hash", "Model", "Generated"):
+        qs += ["-Q", os.path.join(COQ, d), "ZK"]
+    rc, out = sh(["timeout", str(timeout), "coqc", "-noglob"] + qs + [f], cwd=WORK)
+    for ext in ("", "o", "ok", "os"):
+        try: os.remove(f + ext if ext else f)
+        except OSError: pass
+    try: os.remove(f[:-2] + ".vo"); os.remove(f[:-2] + ".vok"); os.remove(f[:-2] + ".vos")
+    except OSError: pass
+    if rc != 0: return None, out[-1500:]
+    vals = {}
+    for m in re.finditer(r"=\s*\((\d+)%nat,\s*((?:.|\n)*?)\)\s*\n\s*:", out):
+        vals[int(m.group(1))] = re.sub(r"\s+", "", m.group(2))
+    return [vals.get(k) for k in range(len(terms))], out[-500:]
+
+def show_model_result(core):
+    """the driver's line 'OK 1 Z,2,3 <hex>' in the shape Coq prints tokv lists (integers only)"""
+    parts = core.split(" ")
+    if parts[0] != "OK": return {"ERR": "Err", "PANIC": "Panic", "NODRAW": "NoDraw"}.get(parts[0], parts[0])
+    toks = []
+    for t in parts[1:]:
+        if t.startswith("Z"): toks.append("TL[" + ";".join(x if not x.startswith("-") else "(" + x + ")" for x in t.split(",")[1:]) + "]")
+        elif re.fullmatch(r"-?\d+", t): toks.append("TI" + (t if not t.startswith("-") else "(" + t + ")"))
+        else: return None
+    return "Ok[" + ";".join(toks) + "]"
+
 def write_evidence(pid, data):
     os.makedirs(os.path.join(VERIF, "evidence"), exist_ok=True)
     p = os.path.join(VERIF, "evidence", pid + ".json")
